@@ -866,6 +866,12 @@ func vfMsgExec(alphabet []vfMsgOp) func(hist []int, last bool) vfXResult {
 							What: fmt.Sprintf("after %s: %s", op, d), Detail: map[string]any{"op": op.String(), "post": post.Key()}})
 					}
 				}
+				// C08: a rejected request changes nothing in the store
+				if so.Code >= 400 && res.FaultDump != preDump {
+					res.Violations = append(res.Violations, vfXViolation{Key: "C08:rejected-request-changed-store:" + op.Kind + vfNoteKind(op),
+						What:   fmt.Sprintf("%s was answered %d, yet the store changed:\n%s", op, so.Code, vfDumpDiff(preDump, res.FaultDump)),
+						Detail: map[string]any{"op": op.String(), "code": so.Code}})
+				}
 				res.Outcome = fmt.Sprintf("%s:%d", op.Kind, so.Code/100)
 				res.Obs = fmt.Sprintf("%d %s", so.Code, vfFramesCanon(so.Frames))
 				res.Code = so.Code
